@@ -24,6 +24,7 @@ HARNESSES = [
     ("keymessage", "./internal/handshakecrypto", "^TestVerifC10KeyMessage$", "internal/handshakecrypto/crypto.go ValueKeyMessage"),
     ("exporter", ".", "^TestVerifC10ExporterUnit$", "state.go ExportKeyingMaterial"),
     ("exporter-e2e", ".", "^TestVerifC10ExporterE2E$", "state.go ExportKeyingMaterial"),
+    ("live", ".", "^TestVerifC10Live$", "conn.go record protection (live traffic, key-log keyed decoder)"),
     ("record13", "./internal/ciphersuite", "^TestVerifC10Record13$", "internal/ciphersuite/tls_13_record_protection.go"),
 ]
 
@@ -63,11 +64,21 @@ def signature_of(c):
     return {"monitor": "rfc-formula-mismatch", "function": c.get("tag", str(c["fn"]))}
 
 
+def _cleanup_cases():
+    """remove this run's scratch case files (vlib.coq_run leaves the .v sources behind)"""
+    import glob
+    import os
+    d = os.path.join(vlib.WORK, "cases")
+    for f in glob.glob(os.path.join(d, "c10_%d_*" % os.getpid())) + glob.glob(os.path.join(d, "c10val_*")):
+        vlib.cleanup(f)
+
+
 def run(chk):
     proved = chk.prove(extra_targets=["theories/Crypto/C10Run.vo"])
     env = {"VERIF_SEED": chk.seed, "VERIF_TIER": chk.tier}
     found_input = False
     legs = []
+    failed = {}
     for leg, pkg, rx, site in HARNESSES:
         out = vlib.out_path("c10" + leg)
         rc, o = vlib.go_test(pkg, rx, dict(env, VERIF_OUT=out), timeout=1800, tags=["c10"])
@@ -79,10 +90,15 @@ def run(chk):
                 chk.finding(site, {"monitor": "panic", "test": rx}, "panic in " + rx,
                             {"test": rx, "output": o[-3000:]})
                 found_input = True
-            else:
+            elif kind == "build" or not cases:
                 chk.broken("correspondence harness %s no longer runs against /repo (%s)" % (rx, kind), o)
-            continue
-        if not cases:
+                continue
+            else:
+                # a self-check of the harness failed (e.g. the library no longer opens its own record);
+                # the observations emitted before that are still compared - if none of them deviates
+                # from the model the failure is reported as broken machinery below
+                failed[leg] = (rx, kind, o)
+        elif not cases:
             chk.broken("correspondence harness %s produced no cases" % rx, o)
             continue
         legs.append((leg, site, cases))
@@ -131,7 +147,11 @@ def run(chk):
                 nbad = sum(1 for i in range(base, base + len(cases)) if i in badset)
                 base += len(cases)
                 chk.leg_info(leg, functions=fns, mismatching=nbad)
+                if leg in failed and nbad == 0:
+                    rx, kind, o = failed[leg]
+                    chk.broken("correspondence harness %s no longer runs against /repo (%s)" % (rx, kind), o)
                 chk.cov["traces_validated_against_impl"] += len(cases)
+    _cleanup_cases()
     if not proved:
         where, out = getattr(chk, "proof_error", ("?", ""))
         if not found_input:
@@ -145,3 +165,15 @@ def run(chk):
                      "used as oracles for the primitive only; their inputs (key, nonce, AAD) are compared with the model",
                      "the model is hand-written from the RFC text; it is pinned to the standards by the known-answer "
                      "tests proved by kernel evaluation in Crypto/C10Sha2.v, C10Hmac.v, C10Hkdf.v"])
+
+
+def replay(chk, path):
+    """Replay = rerun the whole (seed-deterministic) check with the seed and tier recorded in the
+    replay file; the recorded case is regenerated by the harness and compared again. For cases taken
+    from real handshakes (exporter-e2e) the inputs are fresh but the signature is the same."""
+    import json
+    with open(path) as f:
+        body = json.load(f)
+    chk.seed = int(body.get("seed", chk.seed))
+    chk.tier = body.get("tier", chk.tier)
+    run(chk)
